@@ -89,14 +89,14 @@ TEXTS = {
     "C12": _t("Recording rules on eval_one (reset first, row 0, action before step, positions 1 and 4 of the step result, info key agreement with the "
               "env) and evaluate (fresh env per task, tuple order, stack+transpose, ordered pool API); RNG-ownership analysis across the task boundary: "
               "RNG-holding attributes are found by constructor, draws on them located, and any draw reachable from the worker through a bound method or "
-              "object shared by all tasks - or from a process-global RNG - is a violation; per-env child streams created in the factory are accepted, and solver-owned RNG state only when the after_reset hook of the same object replaces it per task from the env's own factory-seeded stream (chain H1-H4, every link checked).",
+              "object shared by all tasks - or from a process-global RNG - is a violation; per-env child streams created in the factory are accepted, and solver-owned RNG state only when the after_reset hook of the same object replaces it per task from the env's own factory-seeded stream (chain H1-H4, every link checked); registered generators that draw hidden games from module-level state are reported (two documented families: open known findings); the action vector of an episode that can end early is NaN-initialised.",
               "DESIGN.md section 4, C12",
               "numeric equality of the matrices with a replay; statistical independence of the hidden games.",
               "static analysis: positional dataflow, RNG-ownership (escape/sharing) analysis over bound methods and partials"),
     "C13": _t("Path rule: every gym.step(a) in a solver is undone by gym.unstep(a) with the same argument on every path (flow with helper summaries); "
               "read-only use of the env; returned action provably drawn from the mask-filtered list; choice rules (max unless worst then min, first match in "
               "ascending order; largest = max size, first match; look-ahead value = position 1 of the step result); expected greedy: argmin of the mean over "
-              "the games axis, append AND remove before rebuilding candidates, curve row = len(sequence); registry constructibility.",
+              "the games axis, append AND remove before rebuilding candidates, the search loop ends when no candidate is left (limit clipped), curve row = len(sequence); no draw from the env's random stream outside after_reset; registry constructibility.",
               "DESIGN.md section 4, C13",
               "that the maximal immediate reward is numerically what is returned; comparison with the exhaustive optimum.",
               "static analysis: acquire/release pairing on a CFG walk, membership provenance, pattern rules"),
@@ -108,7 +108,7 @@ TEXTS = {
               "distribution/support/orthogonality invariants after arbitrary iterations (numeric), float32 accumulation.",
               "static analysis: dimension (index-space) type inference, writer/reader agreement"),
     "C15": _t("Cancellation-guarded division: a divisor that is (or is read back from a game into which the function stored) a difference of game values "
-              "must be guarded by a tolerance test, not an exact-zero test; norm-info captured before mutation; inverse agreement (subtract singletons then "
+              "must be guarded by a tolerance test - relative to the scale of the game, non-strict, non-negative by construction and built from the rounding unit of the value type, not from an ad-hoc constant - not an exact-zero test; norm-info captured before mutation; inverse agreement (subtract singletons then "
               "divide vs multiply then add, tuple positions); view contract of the bound getters the in-place division relies on; dispatch over both game kinds; the graph game keeps no state besides its matrix (GG).",
               "DESIGN.md section 4, C15",
               "the [0,1] range, superadditivity of the result, round-trip error bounds (numeric).",
@@ -121,7 +121,7 @@ TEXTS = {
               "static analysis: provenance-term pattern rules"),
     "C17": _t("Rules over every method of IncompleteCooperativeGame: column discipline derived from the scalar accessors (distinct, in width, every accessor "
               "its column, set_value writes value/value/1), guarded getters, masked bulk setters (not-known conjunct, right column), copy/negation "
-              "(fresh table, reads from self, swap, knowledge untouched), reset order, reveal/unreveal preconditions; the selection helper returns the column iff no coalitions are given, else the rows of the given ids in the given order; package-wide who-may-write _values and "
+              "(fresh table, reads from self, swap, knowledge untouched), reset order with both arguments copied out before the table is cleared, reveal/unreveal preconditions; the selection helper returns the column iff no coalitions are given, else the rows of the given ids in the given order; package-wide who-may-write _values and "
               "view-escape rule (derived view getters, in-place mutation sites, 2 allow-listed symbols).",
               "DESIGN.md section 4, C17",
               "the full operation-sequence semantics (a model of NumPy indexing would be needed), NaN vs None representation.",
@@ -135,7 +135,7 @@ TEXTS = {
               "static analysis: truth-table normal form of bitwise expressions, enumeration-shape and predicate-shape rules"),
     "C19": _t("Static path/dataflow rules over every site that writes, loads or rebuilds a saved result: skip-if-present guard dominates all effects, "
               "the serialised object is the loaded mapping plus exactly the new key, writer and reader of Output agree on keys, columns and dataclass fields "
-              "(tolist round trip), the four commands store positions 0/1 of what they computed, written content is installed, saver registry and dispatcher; the atomic-write rules A1-A5 of C20 (a failed save must not damage stored runs).",
+              "(tolist round trip), the four commands store positions 0/1 of what they computed, written content is installed, saver registry and dispatcher (every saver behind the existing-name test, file names keep the whole run name); the atomic-write rules A1-A5 of C20 (a failed save must not damage stored runs).",
               "DESIGN.md section 4, C19",
               "exact float/NaN round-trip through the json module, metadata stringification.",
               "static analysis: guard dominance, writer/reader key agreement, dependency closure of Output arguments"),
